@@ -89,7 +89,7 @@ inductive Err
   | dupName     -- CompositeSystem: duplicate ElementalSystem name
   | typeErr     -- unsupported type combination
   | emptyReduce -- reduce() of empty sequence
-  | fuel        -- model artefact: loop bound exhausted (never happens, see `calcPerm_terminates`)
+  | fuel        -- model artefact: loop bound exhausted (never happens, see `calcPerm_never_fuel` in QProps/C07.lean)
   | dist (e : QM.C16.Err)
 deriving Repr, DecidableEq
 
